@@ -337,6 +337,44 @@ class Host:
                                 'external_ip': self.ext_ip}, f, explicit_start=True,
                                explicit_end=True, default_flow_style=False)
 
+    def replay_network_requests(self, during=None):
+        """The network service restarts and re-processes every request it finds (what ResourceService._run does at
+        start): the REAL ResourceService._on_created, with the daemon stand-in as the implementation behind it.
+        `during` = (container, fn): fn() runs while the service is inside on_create_request for that container's
+        request - another node service acting at that very instant."""
+        from treadmill.services import network_service
+        svc = self.tm_env.svc_network
+        rsrc = os.path.join(self.tm_env.svc_network_dir, 'resources')
+        host = self
+        out = dict(replayed=0, died=None)
+
+        class _Impl:
+            PAYLOAD_SCHEMA = network_service.NetworkResourceService.PAYLOAD_SCHEMA
+
+            def on_create_request(self, req_id, _req_data):
+                if req_id not in host.vips:
+                    free = [ip for ip in host.vip_pool if ip not in host.vips.values()]
+                    if not free:
+                        raise HarnessError('vip pool exhausted')
+                    host.vips[req_id] = free[0]
+                    host.vip_history.append((req_id, free[0]))
+                reply = {'vip': host.vips[req_id], 'veth': 'x%s.1' % req_id.rsplit('-', 1)[-1][-12:],
+                         'gateway': GATEWAY, 'external_ip': host.ext_ip}
+                if during is not None and req_id == during[0].unique:
+                    out['during'] = during[1]()
+                return reply
+        for req_id in sorted(os.listdir(rsrc)):
+            if req_id.startswith('.'):
+                continue
+            try:
+                svc._on_created(_Impl(), os.path.join(rsrc, req_id))          # pylint: disable=protected-access
+                out['replayed'] += 1
+            except OSError as err:
+                # the request (or its container) vanished under the service while it was answering: the service dies on
+                # it and is restarted; nothing of the property depends on that answer
+                out['died'] = '%s: %s' % (type(err).__name__, err)
+        return out
+
     def reap_network(self):
         """on_delete_request of the daemon: a request whose link is gone frees its VIP."""
         rsrc = os.path.join(self.tm_env.svc_network_dir, 'resources')
